@@ -64,6 +64,11 @@ CHECKS = {
              "operands decides what |, any, +, make_required and alias must accept; bounds, key flags, presence "
              "flags and leaves are solver variables; member identity via [] and iteration is asserted.",
         design="4/C13"),
+    "C14": dict(
+        text="Bounded symbolic execution of from_native + Validator + Generator on nested plain values with symbolic "
+             "leaves and an independent symbolic probe value: the schema accepts its value, generates exactly it "
+             "without drawing, and accepts the probe iff it is the same value (type-aware); other kinds -> ValueError.",
+        design="4/C14"),
 }
 
 NOT_YET = {
